@@ -16,8 +16,8 @@ REPO = os.environ.get("VERIF_REPO", "/repo")
 COQ = os.path.join(VERIF, "coq")
 THEORIES = os.path.join(COQ, "theories")
 HARNESS = os.path.join(VERIF, "harness")
-WORK = os.path.join(VERIF, "work")
-EVID = os.path.join(VERIF, "evidence")
+WORK = os.environ.get("VERIF_WORK") or os.path.join(VERIF, "work")
+EVID = os.environ.get("VERIF_EVID") or os.path.join(VERIF, "evidence")
 JOBS = int(os.environ.get("VERIF_JOBS", "16"))
 
 FORBIDDEN = re.compile(
